@@ -1758,8 +1758,8 @@ func genKway(repo, out string) {
 func genCodec(repo, out string) {
 	p := parseDir(repo + "/table")
 	var sb strings.Builder
-	sb.WriteString("import Originium.Model.Codec\n")
-	sb.WriteString("/-! GENERATED by /verif/extract (gotrans.go) from /repo/table/data.go on every check run. Do not edit.\n")
+	sb.WriteString("import Originium.Model.Codec\nimport Originium.Generated.Consts\n")
+	sb.WriteString("/-! GENERATED by /verif/extract (gotrans.go) from /repo/table/data.go, index.go and footer.go on every check run. Do not edit.\n")
 	sb.WriteString("    `Data.Encode`: `buf` is the staging buffer (a list of bytes; `bufferpool.Pool.Get` returns it empty, the error writer's\n")
 	sb.WriteString("    `w.Write(binary.LittleEndian, x)` appends the little-endian bytes of `x` and cannot fail on a bytes.Buffer), `utils.LCP` is\n")
 	sb.WriteString("    the model's `Codec.lcp`, `uint16(n)` / `uint64(n)` written little-endian are `Codec.encLE 2 n` / `Codec.encLE 8 n`, `comp x` is\n")
@@ -1982,6 +1982,91 @@ func genCodec(repo, out string) {
 			ddi = fmt.Sprintf("/-- UNTRANSLATABLE: %s -/\ndef decodeIndex : Unit := ()\n", strings.ReplaceAll(errdi.Error(), "-/", "- /"))
 		}
 		sb.WriteString(ddi + "\n")
+	}
+	// Footer.Encode / Footer.Decode
+	{
+		ff := findFunc(p, "Footer", "Encode")
+		wf := map[string]func(string) string{}
+		for _, kv := range [][2]string{{"f.MetaBlock.Offset", "encLE 8 metaOff"}, {"f.MetaBlock.Length", "encLE 8 metaLen"},
+			{"f.IndexBlock.Offset", "encLE 8 indexOff"}, {"f.IndexBlock.Length", "encLE 8 indexLen"}, {"f.Magic", "encLE 8 magic"}} {
+			k, f := w(kv[0], kv[1])
+			wf[k] = f
+		}
+		spe := transSpec{
+			leanName: "encodeFooter",
+			binders:  "(metaOff metaLen indexOff indexLen magic : Nat)",
+			retType:  "Option Bytes",
+			exprMap:  map[string]string{"w.Error() != nil": "false", "w.Error()": "WERR", "bytes.Clone(buf.Bytes())": "buf"},
+			state:    []string{"buf"}, stateLn: []string{"buf"}, stateTy: []string{"Bytes"},
+			binds: map[string][][2]string{"bufferpool.Pool.Get()": {}},
+			wraps: wf,
+			skipStmt: func(st ast.Stmt) bool {
+				s := goStr(st)
+				return strings.HasPrefix(s, "defer bufferpool.Pool.Put(") || s == "w := utils.NewErrorWriter(buf)"
+			},
+			ret: func(vals []string, st []string) string {
+				if len(vals) == 2 && vals[1] == "nil" {
+					return "some " + vals[0]
+				}
+				return "none"
+			},
+			fallOff:  func(st []string) string { return "none" },
+			panicVal: "none",
+		}
+		de := ""
+		erre := fmt.Errorf("Footer.Encode not found")
+		if ff != nil {
+			t := &translator{spec: spe}
+			body := t.stmts(ff.Body.List, func() string { return "none" }, "", "")
+			erre = t.err
+			de = fmt.Sprintf("def %s %s : %s :=\n  let buf : Bytes := []\n  %s\n", spe.leanName, spe.binders, spe.retType, body)
+		}
+		if erre != nil {
+			de = fmt.Sprintf("/-- UNTRANSLATABLE: %s -/\ndef encodeFooter : Unit := ()\n", strings.ReplaceAll(erre.Error(), "-/", "- /"))
+		}
+		sb.WriteString(de + "\n")
+
+		fdf := findFunc(p, "Footer", "Decode")
+		wd := map[string]func(string) string{}
+		for _, v := range []string{"metaOffset", "metaLength", "indexOffset", "indexLength", "magic"} {
+			v := v
+			wd["r.Read(binary.LittleEndian, &"+v+")"] = func(tail string) string {
+				return "(let x := rdN 8 reader rerr; let " + v + " := (if x.2.2 then " + v + " else x.1); let reader := x.2.1; let rerr := x.2.2; " + tail + ")"
+			}
+		}
+		spd := transSpec{
+			leanName: "decodeFooter",
+			binders:  "(footer : Bytes) (f0 : Nat × Nat × Nat × Nat × Nat)",
+			retType:  "Option (Nat × Nat × Nat × Nat × Nat)",
+			exprMap: map[string]string{"bytes.NewReader(footer)": "footer", "r.Error() != nil": "rerr", "r.Error()": "RERR", "magic != _magic": "(decide (magic ≠ Consts.magic))",
+				"ErrInvalidMagic": "ERR"},
+			state:    []string{"reader", "rerr", "f.MetaBlock.Offset", "f.MetaBlock.Length", "f.IndexBlock.Offset", "f.IndexBlock.Length", "f.Magic"},
+			stateLn:  []string{"reader", "rerr", "fMetaOff", "fMetaLen", "fIndexOff", "fIndexLen", "fMagic"},
+			stateTy:  []string{"Bytes", "Bool", "Nat", "Nat", "Nat", "Nat", "Nat"},
+			zero:     map[string]string{"uint64": "(0 : Nat)"},
+			wraps:    wd,
+			skipStmt: func(st ast.Stmt) bool { return goStr(st) == "r := utils.NewErrorReader(reader)" },
+			ret: func(vals []string, st []string) string {
+				if len(vals) == 1 && vals[0] == "nil" {
+					return "some (fMetaOff, fMetaLen, fIndexOff, fIndexLen, fMagic)"
+				}
+				return "none"
+			},
+			fallOff:  func(st []string) string { return "none" },
+			panicVal: "none",
+		}
+		dd := ""
+		errd := fmt.Errorf("Footer.Decode not found")
+		if fdf != nil {
+			t := &translator{spec: spd}
+			body := t.stmts(fdf.Body.List, func() string { return "none" }, "", "")
+			errd = t.err
+			dd = fmt.Sprintf("def %s %s : %s :=\n  let reader : Bytes := []\n  let rerr : Bool := false\n  let fMetaOff := f0.1\n  let fMetaLen := f0.2.1\n  let fIndexOff := f0.2.2.1\n  let fIndexLen := f0.2.2.2.1\n  let fMagic := f0.2.2.2.2\n  %s\n", spd.leanName, spd.binders, spd.retType, body)
+		}
+		if errd != nil {
+			dd = fmt.Sprintf("/-- UNTRANSLATABLE: %s -/\ndef decodeFooter : Unit := ()\n", strings.ReplaceAll(errd.Error(), "-/", "- /"))
+		}
+		sb.WriteString(dd + "\n")
 	}
 	sb.WriteString("end GenCodec\n")
 	if err := os.WriteFile(out, []byte(sb.String()), 0644); err != nil {
